@@ -174,6 +174,14 @@ func (ce *clauseEnv) tr(x *SX, bound map[string]bool, old bool) *SX {
 				}
 			}
 		}
+		// a package-level compiled regular expression of the function's own package
+		if isGoIdent(a) && ce.e.fi != nil && ce.e.fi.Pkg != nil && ce.e.fi.Pkg.Types != nil {
+			if v, ok := ce.e.fi.Pkg.Types.Scope().Lookup(a).(*types.Var); ok {
+				if _, isRe := ce.e.w.regexpPattern(v); isRe {
+					return atom(ce.e.globalVar(v))
+				}
+			}
+		}
 		return x
 	}
 	if len(x.List) == 0 {
